@@ -15,6 +15,15 @@ remote command do not change the protocol (they are C08's).  Time passes (`tick`
 thread can run (maximal progress).  `Reach v f c scripts s`: `s` is reachable for wait construct `v`,
 fanout `f`, timeouts and -s flag `c`, under ANY schedule and any number of spurious wake-ups.
 
+THE TEARDOWN IS A PHASE OF ITS OWN.  A script also says how long the remote command lives by itself (`life`
+seconds after the connect, whatever its streams do; `none` = for ever) and what a SIGTERM does to it (`grace`:
+gone that many seconds later; `none` = it ignores SIGTERM).  When the worker gives up on a target at the command
+timeout it forwards SIGTERM (`rcmd_signal`); then, as after a normal end of the streams, it sits in `rcmd_destroy`
+until the command is gone (`death ≤ now`), and only the return of `rcmd_destroy` (`reaped`) lets it go on to
+release its fanout slot.  A wait interrupted by a signal would give the command up un-reaped (the EINTR branch of
+`hostStep .. destEnd`); `teardown_uninterrupted` shows that the branch is dead on this code: the watchdog only
+signals targets that are connecting or reading.
+
 What is proved (all fanouts, all numbers of targets, all fault vectors, all schedules):
 * `fan_refinement`: a timed execution is a Fan execution — C03/C04 carry over (`inflight_le_fanout_timed`,
   `each_target_connected_once`);
@@ -26,13 +35,24 @@ What is proved (all fanouts, all numbers of targets, all fault vectors, all sche
   targets do;
 * `connect_deadline`, `command_deadline`, `interrupted_is_abandoned_now`, `unlimited_never_interrupted`;
 * `failed_reported` (command timeout; connect-time messages are the transport module's);
-* `terminates_with_timeouts` (both timeouts set: virtual time ≤ n·(ct+ut+2·WDOG_POLL) until dsh() returns),
-  `terminates_no_hang_ut0` (no command timeout but no stream hangs: ≤ n·(ct+WDOG_POLL) + Σ scripted stream ends)
-  and `never_stuck`.
+* `inflight_le_fanout` (in flight = connect begun … `rcmd_destroy` returned, in terms of the target records),
+  `alive_le_fanout` (remote commands alive at the same instant ≤ fanout — across timeouts, for commands that
+  outlive their streams or ignore SIGTERM), `alive_holds_slot`, `teardown_waits`, `teardown_uninterrupted`;
+* `terminates_with_timeouts` (both timeouts set, every command ends — `Td`: it exits by itself within K of its
+  connect, or it holds stdout open and is gone within K of the forwarded SIGTERM: virtual time ≤
+  n·(ct+ut+2·WDOG_POLL+K) until dsh() returns), `terminates_no_hang_ut0` (no command timeout but no stream hangs:
+  ≤ n·(ct+WDOG_POLL+K) + Σ scripted stream ends) and `never_stuck`;
+* `immortal_never_returns`: WITHOUT the hypothesis `Td` the bound fails — once a command that neither exits nor
+  reacts to SIGTERM has been started, dsh() never returns, command timeout or not (the teardown waits for it:
+  witness below; on the real `pdsh -R exec -u 1` this is finding F07-TEARDOWN-WAIT).
+The connect outcome of the model is success / failure (`Conn.ok` / `refuse` / interrupted), not a descriptor:
+the correspondence maps `rcmd_connect() ≥ 0` to success, and the descriptor VALUE the scripted transport returns is
+generated over {0, 1, 2, ≥ 3} (harness key `lowfds`).
+
 Not proved here: that dsh.c refines the LTS (trace correspondence of `checks/c07.py`); anything below
 the granularity "operations + blocking calls" (a SIGALRM that finds the worker between two xpoll calls
 is lost — finding F07-LOSTALRM — the model's workers are always inside xpoll while READING);
-scheduling latency of real threads; `-k`; a teardown that blocks; DNS.
+scheduling latency of real threads; `-k`; DNS.
 -/
 namespace PdshVerif.Props.C07
 open PdshVerif.Dsh PdshVerif.Dsh.Timed
@@ -57,6 +77,62 @@ theorem inflight_le_fanout_timed {f c scripts} {s : St} (h : Reach .whileWait f 
   have h3 := Fan.flying_le_counted s.fan.ws
   have := hb.le
   unfold Fan.inflight; omega
+
+/-- C04 ACROSS TIMEOUTS, in terms of the target records: the number of targets whose connect has begun and whose
+    `rcmd_destroy` has not returned never exceeds the fanout — whatever refuses, hangs, is given up on at a
+    timeout, outlives its streams or ignores SIGTERM (`while` construct; any schedule, any spurious wake-ups) -/
+theorem inflight_le_fanout {f c scripts} {s : St} (h : Reach .whileWait f c scripts s) : s.inflight ≤ f := by
+  obtain ⟨ls, he⟩ := h
+  rw [inflight_eq_fan (tinv_exec (tinv_init _ _ _ _) he) (dinv_exec he)]
+  exact inflight_le_fanout_timed ⟨ls, he⟩
+
+/-- a remote command that is alive belongs to a worker that still holds its fanout slot (it is between
+    `rcmd_connect` and the return of `rcmd_destroy`): the slot is released only after the command is gone -/
+theorem alive_holds_slot {v f c scripts} {s : St} (h : Reach v f c scripts s) {j : Nat} (hj : j < s.hs.length)
+    (ha : (s.host j).alive s.now = true) : Fan.flying (Fan.pc s.fan j) = true := by
+  obtain ⟨ls, he⟩ := h
+  have hti := tinv_exec (tinv_init _ _ _ _) he
+  have hdi := dinv_exec he
+  rw [← inflight_iff_flying hti hdi hj]
+  exact alive_inflight (hdi.host j hj) ha
+
+/-- the number of remote commands alive at the same instant never exceeds the fanout -/
+theorem alive_le_fanout {f c scripts} {s : St} (h : Reach .whileWait f c scripts s) : s.alive ≤ f := by
+  have hle : s.alive ≤ s.inflight := by
+    obtain ⟨ls, he⟩ := h
+    have hdi := dinv_exec he
+    unfold St.alive St.inflight
+    apply List.countP_mono_left
+    intro x hx hax
+    obtain ⟨j, hj, rfl⟩ := List.getElem_of_mem hx
+    have : s.host j = s.hs[j] := by
+      simp [St.host, List.getD_eq_getElem?_getD, List.getElem?_eq_getElem hj]
+    rw [← this] at hax ⊢
+    exact alive_inflight (hdi.host j hj) hax
+  exact Nat.le_trans hle (inflight_le_fanout h)
+
+/-- while the command is not gone the worker stays in `rcmd_destroy` -/
+theorem teardown_waits {v f c scripts} {s : St} (h : Reach v f c scripts s) {j : Nat} (hj : j < s.hs.length)
+    (hpc : Fan.pc s.fan j = .tearing) (ha : (s.host j).alive s.now = true) :
+    step s (.fan (.w j .destroyEnd)) = none := by
+  have hti := tinv_reach h
+  have hfin : (s.host j).ph = .finished := by
+    have := hti.sync j hj; rw [hpc] at this; simpa [phOK] using this
+  have hint : (s.host j).intr = false := by
+    cases hh : (s.host j).intr with
+    | false => rfl
+    | true => have := (hti.hosts j hj).intrPh hh; rw [hfin] at this; simp at this
+  have hng : (s.host j).gone s.now = false := by simpa [Host.alive] using ha
+  simp only [step, dstep]
+  cases Fan.step s.fan (.w j .destroyEnd) <;> simp [fanGuard, hint, hng]
+
+/-- no signal is ever pending for a target that is being torn down: the wait in `rcmd_destroy` is never
+    interrupted, so a command is never given up un-reaped -/
+theorem teardown_uninterrupted {v f c scripts} {s : St} (h : Reach v f c scripts s) {j : Nat} (hj : j < s.hs.length)
+    (hph : (s.host j).ph = .finished) : (s.host j).intr = false := by
+  cases hh : (s.host j).intr with
+  | false => rfl
+  | true => have := ((tinv_reach h).hosts j hj).intrPh hh; rw [hph] at this; simp at this
 
 /-- C03 for the timed system: whatever fails, when dsh() has returned every target was connected
     exactly once and torn down exactly once -/
@@ -178,14 +254,17 @@ theorem failed_reported {v f c scripts} {s : St} (h : Reach v f c scripts s) {j 
     (hres : (s.host j).res = .cmdTimedOut) : Rep.cmdTimeout ∈ (s.host j).reps :=
   ((tinv_reach h).hosts j hj).resRep hres
 
-/-- TIMEOUTS BOUND THE RUN: with both timeouts set (and fanout ≥ 1), as long as dsh() has not returned the
-    virtual clock is at most n · (connect_timeout + command_timeout + 2 · WDOG_POLL) — whatever the targets
-    do and however the threads are scheduled. -/
-theorem terminates_with_timeouts {v f c scripts} {ls : List Label} {s : St} (he : Exec (init v f c scripts) ls s)
-    (hf : 0 < f) (hct : 0 < c.ct) (hut : 0 < c.ut) (hnf : ¬ Final s) :
-    s.now ≤ scripts.length * (c.ct + c.ut + 2 * WDOG_POLL) := by
-  have := (time_bounded he hf hct (Or.inl hut)).2.2 hnf
-  have hsum : ∀ l : List Script, (l.map (budget c)).sum = l.length * (c.ct + c.ut + 2 * WDOG_POLL) := by
+/-- TIMEOUTS BOUND THE RUN: with both timeouts set (and fanout ≥ 1) and every command ending (`Td c K`: it exits
+    by itself within K seconds of its connect — whatever it does with signals —, or it holds stdout open for ever
+    and is gone within K seconds of the SIGTERM forwarded at the command timeout), as long as dsh() has not
+    returned the virtual clock is at most n · (connect_timeout + command_timeout + 2 · WDOG_POLL + K) — whatever
+    the targets do and however the threads are scheduled. -/
+theorem terminates_with_timeouts {v f c scripts} {K : Nat} {ls : List Label} {s : St}
+    (he : Exec (init v f c scripts) ls s) (hf : 0 < f) (hct : 0 < c.ct) (hut : 0 < c.ut)
+    (htd : ∀ j, j < scripts.length → Td c K (scripts.getD j defaultScript)) (hnf : ¬ Final s) :
+    s.now ≤ scripts.length * (c.ct + c.ut + 2 * WDOG_POLL + K) := by
+  have := (time_bounded he hf hct (Or.inl hut) htd).2.2 hnf
+  have hsum : ∀ l : List Script, (l.map (budget c K)).sum = l.length * (c.ct + c.ut + 2 * WDOG_POLL + K) := by
     intro l; induction l with
     | nil => simp
     | cons x xs ih =>
@@ -193,18 +272,47 @@ theorem terminates_with_timeouts {v f c scripts} {ls : List Label} {s : St} (he 
       omega
   rw [hsum] at this; omega
 
+/-- the hypothesis `Td` for the commands the SIGTERM clause is about: a command that would run for ever, holding
+    stdout open, but dies within K of SIGTERM -/
+theorem td_of_sigterm_obeyed {c : Cfg} {K k : Nat} {sc : Script} (hut : 0 < c.ut) (hl : sc.life = none)
+    (hh : hangsItems sc.out = true) (hg : sc.grace = some k) (hk : k ≤ K) : Td c K sc :=
+  Or.inr ⟨hl, hh, ⟨k, hg, hk⟩, hut⟩
+
+/-- WITHOUT `Td` THE RUN IS NOT BOUNDED: a command that neither exits by itself nor reacts to SIGTERM, once
+    started (its connect succeeded: the target is reading, or done, or failed by the command timeout), keeps
+    dsh() from returning for ever — with or without a command timeout, whatever the schedule: the worker sits in
+    `rcmd_destroy` (`teardown_waits`), which nothing interrupts (`teardown_uninterrupted`).  By `never_stuck` the
+    run goes on, i.e. the clock runs on. -/
+theorem immortal_never_returns {v f c scripts} {ls : List Label} {s : St} (he : Exec (init v f c scripts) ls s)
+    {j : Nat} (hj : j < scripts.length) (hl : (scripts.getD j defaultScript).life = none)
+    (hg : (scripts.getD j defaultScript).grace = none)
+    (hst : (s.host j).ph = .reading ∨ (s.host j).res = .done ∨ (s.host j).res = .cmdTimedOut) : ¬ Final s := by
+  intro hfin
+  have him := imm_exec he hj hl hg
+  have hti := tinv_exec (tinv_init v f c scripts) he
+  have hdi := dinv_exec he
+  obtain ⟨_, _, hlen, _⟩ := ginv_exec he
+  have hj' : j < s.hs.length := by rw [hlen]; exact hj
+  have hdone : Fan.pc s.fan j = .done := hti.fan.fin (by rw [hfin]; rfl) j (by rw [← hti.lenH]; exact hj')
+  have hr : (s.host j).reaped = true := by
+    have := hdi.reap j hj'; rw [hdone] at this; simpa [rpOK] using this
+  have hgone := (hdi.host j hj').gone hr
+  simp [Host.gone, him.started hst] at hgone
+
 /-- THE REMAINING TERMINATION CASE: connect timeout set, NO command timeout, and no target whose polled
     streams hang after the connect (every item arrives at a finite scripted instant, then EOF / error /
-    end of script).  Then, as long as dsh() has not returned, the virtual clock is at most
-    n · (connect_timeout + WDOG_POLL) + Σ over the targets of the scripted end of their streams — whatever
+    end of script), every command exiting by itself within K of its connect (`Td`; without a command timeout
+    no SIGTERM is ever sent).  Then, as long as dsh() has not returned, the virtual clock is at most
+    n · (connect_timeout + WDOG_POLL + K) + Σ over the targets of the scripted end of their streams — whatever
     refuses, hangs in connect or dies, and however the threads are scheduled. -/
-theorem terminates_no_hang_ut0 {v f c scripts} {ls : List Label} {s : St} (he : Exec (init v f c scripts) ls s)
-    (hf : 0 < f) (hct : 0 < c.ct) (hut : c.ut = 0)
-    (hnh : ∀ j, j < scripts.length → NoHang c (scripts.getD j defaultScript)) (hnf : ¬ Final s) :
-    s.now ≤ scripts.length * (c.ct + WDOG_POLL) + (scripts.map (lastT c)).sum := by
-  have := (time_bounded he hf hct (Or.inr hnh)).2.2 hnf
+theorem terminates_no_hang_ut0 {v f c scripts} {K : Nat} {ls : List Label} {s : St}
+    (he : Exec (init v f c scripts) ls s) (hf : 0 < f) (hct : 0 < c.ct) (hut : c.ut = 0)
+    (hnh : ∀ j, j < scripts.length → NoHang c (scripts.getD j defaultScript))
+    (htd : ∀ j, j < scripts.length → Td c K (scripts.getD j defaultScript)) (hnf : ¬ Final s) :
+    s.now ≤ scripts.length * (c.ct + WDOG_POLL + K) + (scripts.map (lastT c)).sum := by
+  have := (time_bounded he hf hct (Or.inr hnh) htd).2.2 hnf
   have hsum : ∀ l : List Script,
-      (l.map (budget c)).sum = l.length * (c.ct + WDOG_POLL) + (l.map (lastT c)).sum := by
+      (l.map (budget c K)).sum = l.length * (c.ct + WDOG_POLL + K) + (l.map (lastT c)).sum := by
     intro l; induction l with
     | nil => simp
     | cons x xs ih =>
@@ -255,6 +363,39 @@ example :
     (ls.foldlM (fun s l => step s l) (init .whileWait 1 { ct := 1, ut := 1, sopt := false, selfCheck := false, stopWdog := false } scripts)).map
       (fun s => (s.now, (s.host 0).res, (s.host 1).res, (s.host 1).out.got, s.fan.dpc)) =
       some (2, Res.connTimedOut, Res.done, 3, Fan.DPC.returned) := by
+  decide
+
+/-- witness for `immortal_never_returns` (and for the teardown phase): fanout 1, both timeouts 1, one target whose
+    command writes nothing, never exits and ignores SIGTERM.  It is given up on at second 2 ("command timeout",
+    SIGTERM forwarded); at second 7 its worker is still inside `rcmd_destroy`, the return of `rcmd_destroy` is
+    not possible, one connection is in flight, one command alive, and another second can pass. -/
+example :
+    let scripts : List Script := [{ conn := .ok 0, out := [⟨none, .data 1⟩], err := [], life := none, grace := none }]
+    let ls : List Label :=
+      [.fan (.d .lock), .fan (.d (.create 0)), .fan (.d .unlock), .fan (.w 0 .connectBegin),
+       .fan (.w 0 .connectEnd), .fan (.d .lock), .fan (.d .wait),
+       .tick, .tick, .scan, .wake 0, .fan (.w 0 .destroyBegin),
+       .tick, .tick, .scan, .tick, .tick, .scan, .tick]
+    (ls.foldlM (fun s l => step s l) (init .whileWait 1 { ct := 1, ut := 1, sopt := false, selfCheck := false, stopWdog := false } scripts)).map
+      (fun s => (s.now, (s.host 0).res, Fan.pc s.fan 0,
+                 (step s (.fan (.w 0 .destroyEnd))).isNone && s.inflight == 1 && s.alive == 1 &&
+                 (step s .tick).isSome)) =
+      some (7, Res.cmdTimedOut, Fan.W.tearing, true) := by
+  decide
+
+/-- the same target, but it dies 1 s after SIGTERM (`grace = some 1`, `Td c 1`): given up on at second 2, gone at
+    second 3, dsh() returns at second 3 ≤ 1·(1+1+2·2+1) -/
+example :
+    let scripts : List Script := [{ conn := .ok 0, out := [⟨none, .data 1⟩], err := [], life := none, grace := some 1 }]
+    let ls : List Label :=
+      [.fan (.d .lock), .fan (.d (.create 0)), .fan (.d .unlock), .fan (.w 0 .connectBegin),
+       .fan (.w 0 .connectEnd), .fan (.d .lock), .fan (.d .wait),
+       .tick, .tick, .scan, .wake 0, .fan (.w 0 .destroyBegin), .tick, .fan (.w 0 .destroyEnd),
+       .fan (.w 0 .lock), .fan (.w 0 .signal), .fan (.w 0 .unlock), .fan (.d (.wake false)), .fan (.d .relock),
+       .fan (.d .unlock), .fan (.d .ret)]
+    (ls.foldlM (fun s l => step s l) (init .whileWait 1 { ct := 1, ut := 1, sopt := false, selfCheck := false, stopWdog := false } scripts)).map
+      (fun s => (s.now, (s.host 0).res, (s.host 0).reaped, s.inflight, s.fan.dpc)) =
+      some (3, Res.cmdTimedOut, true, 0, Fan.DPC.returned) := by
   decide
 
 end PdshVerif.Props.C07
